@@ -54,7 +54,7 @@ Print Assumptions C08_skipSpace_safe_partial.
 Theorem C08_scan_next_safe_partial : forall P l rem,
   tail_inv (l :: rem) -> starts_spht l = false ->
   exists res, scan_next (P ++ join (l :: rem)) (length P) = Ok res.
-Proof. intros P l rem H1 H2. destruct (scan_next_lines P l rem H1 H2) as (res & E & _). eauto. Qed.
+Proof. exact scan_next_safe. Qed.
 Print Assumptions C08_scan_next_safe_partial.
 
 Theorem C08_block_is_lines_partial : forall q, exists ls, q ++ [CR; LF; CR; LF] = join ls /\ tail_inv ls.
